@@ -7,6 +7,7 @@
 package hsms
 
 import (
+	"context"
 	"net"
 
 	"github.com/arloliu/go-secs/v2/internal/wire"
@@ -380,7 +381,8 @@ func specIsRejectErr(err error) bool { _, ok := err.(*RejectError); return ok }
 //@ ensures [oneload]  zzCalls("atomic.Load:cur") == 1
 //@ ensures [t3order]  zzCalls("internal/pool.GetTimer") <= 1 && (zzCalls("internal/pool.GetTimer") == 1 ==>
 //@                    zzCalls("hsms.(*connection).writeFrame") == 1 && zzSeq("hsms.(*connection).writeFrame") < zzSeq("internal/pool.GetTimer"))
-//@ ensures [waits]    zzCalls("select.arm:timer.C") >= 1 ==> zzCalls("select.arm:e.ctx.Done()") >= 1 && zzCalls("select.arm:callerCtx.Done()") >= 1 && zzCalls("select.arm:ch") >= 1
+//@ ensures [waits]    zzCalls("select.arm:any") >= 1 ==> zzArmedCtx(callerCtx) && zzArmedCtx(zzRet[*epoch]("atomic.Load:cur").ctx) &&
+//@                    zzArmedChan(zzRet[chan replyResult]("hsms.(replyRegistry).register"))
 //@ ensures [regorder] zzCalls("hsms.(replyRegistry).register") == 1 && zzCalls("hsms.(*connection).writeFrame") == 1 ==>
 //@                    zzSeq("hsms.(replyRegistry).register") < zzSeq("hsms.(*connection).writeFrame")
 //@ ensures [dereg]    zzCalls("hsms.(replyRegistry).register") == zzCalls("hsms.(replyRegistry).deregister") && zzCalls("hsms.(replyRegistry).register") <= 1
@@ -523,6 +525,8 @@ func zzChanInv_replyResult(v replyResult) bool { return v.err != nil || specReal
 func zzArg[T any](name string, i int) T { panic("spec only") }
 func zzRecv[T any](name string) T       { panic("spec only") }
 func zzSeq(name string) int             { panic("spec only") }
+func zzArmedCtx(c context.Context) bool { panic("spec only") }
+func zzArmedChan[T any](c chan T) bool  { panic("spec only") }
 
 //@ func (replyRegistry).register
 //@ nosafety nil-deref nil-iface
